@@ -1160,6 +1160,29 @@ def check_C17(ctx):
             raise Infra("pubsub driver failed: " + se[-3000:])
         traces.append(out)
         ctx.count("behaviours_executed", runs)
+    # end to end: WatchDocument streams of real clients in realtime-sync mode (they pull only when a change event arrives)
+    wtraces = []
+    wprocs = []
+    for i in range(2 if quick else 6):
+        out = os.path.join(d, "watch-%d.ndjson" % i)
+        wprocs.append((out, subprocess.Popen([yr, "watch", "-out", out, "-runs", str(4 if quick else 30), "-seed", str(ctx.seed * 1000 + 700 + i)],
+                                             stdout=subprocess.PIPE, stderr=subprocess.PIPE, text=True)))
+    for out, p in wprocs:
+        so, se = p.communicate(timeout=3000)
+        if "DATA RACE" in se:
+            mine = harness_only_races(se)
+            if mine:
+                raise Infra("data race inside the harness itself (not a verdict about yorkie):\n" + mine[:3000])
+            viols.append({"property": "C17", "tag": "RaceDetected", "family": "watch-e2e", "behaviour": None, "errors": [se[:3000]], "seed": ctx.seed})
+        elif p.returncode != 0:
+            raise Infra("watch driver failed: " + se[-3000:])
+        else:
+            wtraces.append(out)
+    for v in validate(ctx, wtraces, module="WatchTrace", cfg="watch_trace.cfg"):
+        viols.append({"property": "C17", "tag": v["tag"], "family": "watch-e2e", "behaviour": None, "run": v.get("run"), "trace_line": v["line"],
+                      "errors": [], "seed": ctx.seed})
+    ctx.count("traces_validated", len(wtraces))
+    ctx.samples.append({"family": "watch-e2e", "processes": len(wprocs), "watchers": 3, "pushes_per_run": 5, "bound_s": 5})
     for v in validate(ctx, traces, module="PubSubTrace", cfg="pubsub_trace.cfg"):
         viols.append({"property": "C17", "tag": v["tag"], "family": "pubsub-stress", "behaviour": None, "run": v.get("run"), "trace_line": v["line"],
                       "errors": [], "seed": ctx.seed})
@@ -1169,7 +1192,8 @@ def check_C17(ctx):
     return "model_checking", fresh, known, mc_cov(ctx), [
         "the fine-grained PubSub.tla is checked exhaustively (2 subscribers x 2 events x 2 generations; liveness for 1 event); the implementation is bound "
         "through histories of a free-running concurrent driver (call start/end under one sequence number), not through forced schedules; "
-        "bounded time is three flush windows; the end-to-end WatchDocument path is not covered"]
+        "bounded time is nine flush windows (900 ms) for the package-level histories and 5 s end to end; the end-to-end part drives real clients in realtime-sync "
+        "mode against the real server (WatchDocument stream, publish after PushPull) and never asks a watcher to sync"]
 
 
 def access_cells(ctx):
